@@ -249,20 +249,28 @@ def U : Cmd := { B with req := 2, flag := F_UPDATE, expried := 0 }
 def opsShort (n : Nat) : List Op := [.lock B] ++ List.replicate 35 .tick ++ [.lock U] ++ List.replicate n .tick
 set_option maxRecDepth 100000 in
 example : noShorten 7 (DB.init 100) (opsShort 0) = false := by decide
-set_option maxRecDepth 100000 in
-example : (run (DB.init 100) (opsShort 8)).now = 143 ∧
-    ((run (DB.init 100) (opsShort 8)).getKey 7).holders.map (fun h => (h.expT, h.sched.visit, h.sched.long)) = [(136, 144, false)] := by decide
-
-/-- the state reached at server time 143 -/
-def s143 : DB :=
+/- the run `opsShort 8`, evaluated in three legs through literal states (kernel evaluation of the whole run at once does not
+share the intermediate states) -/
+/-- server time 135: the slot distance has backed off to 8 (second 144) -/
+def s135 : DB :=
+  { keys := [{ key := 7, locked := 1,
+               holders := [{ hid := 0, cmd := B, conn := 1, depth := 1, startT := 100, expT := 201,
+                             sched := { visit := 144, long := false, seq := 7, checked := 8 } }],
+               waiters := [], waited := false }],
+    now := 135, tCheck := 136, eCheck := 136, seq := 8, leader := true, ctr := { lockCount := 1, lockedCount := 1 } }
+/-- after the update `U` (E = 0): deadline 136, slot entry unchanged -/
+def s135u : DB :=
   { keys := [{ key := 7, locked := 1,
                holders := [{ hid := 0, cmd := U, conn := 1, depth := 1, startT := 135, expT := 136,
                              sched := { visit := 144, long := false, seq := 7, checked := 1 } }],
                waiters := [], waited := false }],
-    now := 143, tCheck := 144, eCheck := 144, seq := 8, leader := true,
-    ctr := { lockCount := 1, lockedCount := 1 } }
+    now := 135, tCheck := 136, eCheck := 136, seq := 8, leader := true, ctr := { lockCount := 1, lockedCount := 1 } }
+/-- the state reached at server time 143: the hold is live, 7 s past its deadline -/
+def s143 : DB := { s135u with now := 143, tCheck := 144, eCheck := 144 }
 set_option maxRecDepth 100000 in
-example : run (DB.init 100) (opsShort 8) = s143 := by decide
+example : run (DB.init 100) ([.lock B] ++ List.replicate 35 .tick) = s135 := by decide
+example : shortens s135 U = true ∧ (opLock s135 U).1 = s135u := by decide
+example : run s135u (List.replicate 8 .tick) = s143 := by decide
 example : (opTick s143).2.map (fun r => (r.req, r.result)) = [(2, RESULT_EXPRIED)] ∧ (opTick s143).1.keys = [] := by decide
 
 end Slock.C06
